@@ -146,3 +146,57 @@ Proof.
   exists two_stat, [[47;98]; [47;97]], [47;98].
   split; [left; reflexivity|]. repeat split; vm_compute; reflexivity.
 Qed.
+
+(* ---------------------------------------------------------------- symbolic links *)
+
+(* the gate compares spellings: it protects the files git reports as far as the spellings it compares
+   (the touched paths and the joined status keys) are faithful *)
+Lemma guard_sound_resolved resolve cwd root status modified deleted :
+  git_guard cwd (RepoAt root) status modified deleted = GProceed ->
+  faithful resolve ((modified ++ deleted) ++ changed_abs cwd root status) ->
+  ~ touches_dirty_resolved resolve (fp_abs cwd root) status (modified ++ deleted).
+Proof.
+  intros Hg Hf [f [k [Hin [Hk Hr]]]].
+  destruct (git_guard_proceed _ _ _ _ _ Hg) as [root' [Heq Hne]]. injection Heq as <-.
+  apply (Hne f k Hin Hk). apply Hf; [apply in_or_app; left; exact Hin | | exact Hr].
+  apply in_or_app. right. unfold changed_abs. apply in_map_iff. exists k. split; [reflexivity | exact Hk].
+Qed.
+
+(* /L -> /T: the repository /T reached through the link /L *)
+Definition l_resolve (p : str) : str :=
+  match p with
+  | 47 :: 76 :: rest => 47 :: 84 :: rest      (* /L... -> /T... *)
+  | _ => p
+  end.
+Definition l_root : str := [47;76].                         (* /L *)
+Definition l_file : str := [47;76;47;120].                  (* /L/x *)
+Definition l_key : str := [120].                            (* x *)
+
+(* resolving ONE side of the comparison lets a dirty file through that the spelled comparison stops *)
+Lemma guard_root_resolved_refuted :
+  exists resolve cwd root status modified deleted,
+    git_guard_root_resolved resolve cwd (RepoAt root) status modified deleted = GProceed
+    /\ touches_dirty_resolved resolve (fp_abs cwd root) status (modified ++ deleted)
+    /\ git_guard cwd (RepoAt root) status modified deleted = GRefuse.
+Proof.
+  exists l_resolve, [47], l_root, [l_key], [l_file], []. split; [reflexivity|]. split; [|reflexivity].
+  exists l_file, l_key. split; [left; reflexivity|]. split; [left; reflexivity|]. reflexivity.
+Qed.
+
+(* /R/l -> /R/a, a link INSIDE the work tree /R: git names the file a/t, the command l/t.  The
+   spellings are not faithful and the gate of the tree as it is lets the dirty file through (open
+   finding, see notes/C14.md) *)
+Definition i_resolve (p : str) : str :=
+  match p with
+  | 47 :: 82 :: 47 :: 108 :: rest => 47 :: 82 :: 47 :: 97 :: rest     (* /R/l... -> /R/a... *)
+  | _ => p
+  end.
+
+Lemma guard_unfaithful_refuted :
+  exists resolve cwd root status modified deleted,
+    git_guard cwd (RepoAt root) status modified deleted = GProceed
+    /\ touches_dirty_resolved resolve (fp_abs cwd root) status (modified ++ deleted).
+Proof.
+  exists i_resolve, [47], [47;82], [[97;47;116]], [[47;82;47;108;47;116]], []. split; [reflexivity|].
+  exists [47;82;47;108;47;116], [97;47;116]. split; [left; reflexivity|]. split; [left; reflexivity|]. reflexivity.
+Qed.
